@@ -84,7 +84,11 @@ func (i ImportNames) TypeName(t types.Type) string {
 		}
 		return typ.Obj().Name()
 	default:
-		return t.String()
+		// Qualify named types inside composite types (slices, maps, ...) the way
+		// the setup file refers to them, not with their full import paths.
+		return types.TypeString(t, func(p *types.Package) string {
+			return i[p.Path()]
+		})
 	}
 }
 
